@@ -2668,6 +2668,227 @@ fn parse_names(ans: &str) -> Option<BTreeSet<String>> {
   Some(out)
 }
 
+// ------------------------------------------------------------------------------------------
+// Family `absent-input`: what a name bound by a requirement is in the logic, whatever the name is
+// and whether or not the input context has an entry for it.
+//
+// (who binds the name: a required input, a required decision's variable fed by an input, an input of a
+// decision service evaluated by name and invoked from a decision, an input handed to a knowledge model, a
+// parameter of a knowledge model) x (the name: every name `Bif::from_str` accepts — regenerated table, through
+// the driver — and ordinary names) x (type reference number / string / boolean / Any — input data without a type reference is refused by the builder) x (the entry of the input
+// context: supplied, supplied as null, ABSENT, of the wrong type) x (the use as a value: `n = null`,
+// `if n = null then Price else n`, `[n]`, `{r: n}`).
+//
+// Oracle, written out (nothing of the implementation, no model): a required input without an entry is null in
+// the logic (DMN: missing input data is null), so is one supplied as null and one whose value does not conform to
+// the type reference; otherwise it is the supplied value. `n = null` is then true / false, the conditional Price /
+// the value, the list `[v]`, the context `{r: v}`. A name bound by a requirement is never the built-in function
+// it is spelled like.
+
+/// The names the lexer hands out as the names of date / time literal functions: a variable of that name is
+/// refused when the model is built ("empty FEEL name"), so no requirement can bind it.
+const ABSENT_NOT_NAMES: [&str; 4] = ["date", "time", "duration", "date and time"];
+const ABSENT_ORDINARY: [&str; 6] = ["x", "Quantity", "net amount", "k1", "Count", "summ"];
+const ABSENT_USES: [&str; 4] = ["eq-null", "if-null", "list", "context"];
+const ABSENT_POSITIONS: [&str; 6] = ["input", "decision-variable", "service", "service-invoked", "knowledge", "knowledge-parameter"];
+
+fn absent_names(model: &mut Model) -> Vec<String> {
+  let mut names: Vec<String> = Sexp::parse(&model.ask("(c10 bifnames)"))
+    .and_then(|x| {
+      x.as_list().map(|l| {
+        l.iter()
+          .filter_map(|n| {
+            let cs = n.as_list()?;
+            let mut t = String::new();
+            for c in cs.iter().skip(1) {
+              t.push(char::from_u32(c.as_atom()?.parse::<u32>().ok()?)?);
+            }
+            Some(t)
+          })
+          .filter(|n| !ABSENT_NOT_NAMES.contains(&n.as_str()))
+          .collect()
+      })
+    })
+    .unwrap_or_default();
+  names.extend(ABSENT_ORDINARY.iter().map(|s| s.to_string()));
+  names
+}
+
+fn absent_use(u: usize, n: &str, other: &str) -> String {
+  match u {
+    0 => format!("{} = null", n),
+    1 => format!("if {} = null then {} else {}", n, other, n),
+    2 => format!("[{}]", n),
+    _ => format!("{{r: {}}}", n),
+  }
+}
+
+/// input data / decision with ids of their own (the names have blanks)
+fn absent_input(id: &str, name: &str, ty: &str) -> String {
+  let t = if ty.is_empty() { String::new() } else { format!(" typeRef=\"{}\"", ty) };
+  format!("<inputData name=\"{1}\" id=\"{0}\"><variable name=\"{1}\"{2}/></inputData>", id, name, t)
+}
+
+fn absent_dec(id: &str, name: &str, ty: &str, ri: &[&str], rd: &[&str], rk: &[&str], text: &str) -> String {
+  let t = if ty.is_empty() { String::new() } else { format!(" typeRef=\"{}\"", ty) };
+  let mut s = format!("<decision name=\"{1}\" id=\"{0}\"><variable name=\"{1}\"{2}/>", id, name, t);
+  for q in ri {
+    s.push_str(&format!("<informationRequirement><requiredInput href=\"#{}\"/></informationRequirement>", q));
+  }
+  for q in rd {
+    s.push_str(&format!("<informationRequirement><requiredDecision href=\"#{}\"/></informationRequirement>", q));
+  }
+  for q in rk {
+    s.push_str(&format!("<knowledgeRequirement><requiredKnowledge href=\"#{}\"/></knowledgeRequirement>", q));
+  }
+  s.push_str(&x_lit(&esc(text)));
+  s.push_str("</decision>");
+  s
+}
+
+/// The model for one (position, name, type): four invocables `U0 … U3`, one per use. Returns the body of
+/// `<definitions>` and the name of the entry of the input context that feeds the name.
+fn absent_model(pos: usize, n: &str, ty: &str, src: &str) -> (String, String) {
+  let mut b = String::new();
+  let price = absent_input("_price", "Price", "number");
+  match pos {
+    // a required input
+    0 => {
+      b.push_str(&absent_input("_n", n, ty));
+      b.push_str(&price);
+      for u in 0..4 {
+        b.push_str(&absent_dec(&format!("_u{}", u), &format!("U{}", u), "", &["_n", "_price"], &[], &[], &absent_use(u, n, "Price")));
+      }
+      (b, n.to_string())
+    }
+    // a required decision's variable, the decision hands on its own required input
+    1 => {
+      b.push_str(&absent_input("_src", src, "Any"));
+      b.push_str(&price);
+      b.push_str(&absent_dec("_n", n, ty, &["_src"], &[], &[], src));
+      for u in 0..4 {
+        b.push_str(&absent_dec(&format!("_u{}", u), &format!("U{}", u), "", &["_price"], &["_n"], &[], &absent_use(u, n, "Price")));
+      }
+      (b, src.to_string())
+    }
+    // an input of a decision service: the service evaluated by name (2), invoked from a decision (3)
+    2 | 3 => {
+      b.push_str(&absent_input("_n", n, ty));
+      b.push_str(&price);
+      for u in 0..4 {
+        let (dn, sn) = if pos == 2 { (format!("W{}", u), format!("U{}", u)) } else { (format!("W{}", u), format!("S{}", u)) };
+        b.push_str(&absent_dec(&format!("_w{}", u), &dn, "", &["_n", "_price"], &[], &[], &absent_use(u, n, "Price")));
+        b.push_str(&format!(
+          "<decisionService name=\"{0}\" id=\"_s{1}\"><variable name=\"{0}\"/><outputDecision href=\"#_w{1}\"/><inputData href=\"#_n\"/><inputData href=\"#_price\"/></decisionService>",
+          sn, u
+        ));
+        if pos == 3 {
+          b.push_str(&absent_dec(&format!("_u{}", u), &format!("U{}", u), "", &["_n", "_price"], &[], &[&format!("_s{}", u)], &format!("S{}({}, Price)", u, n)));
+        }
+      }
+      (b, n.to_string())
+    }
+    // a required input handed to a knowledge model (4); a parameter of a knowledge model named so (5)
+    _ => {
+      let (input, param) = if pos == 4 { (n, "p") } else { (src, n) };
+      b.push_str(&absent_input("_n", input, ty));
+      b.push_str(&price);
+      for u in 0..4 {
+        b.push_str(&format!(
+          "<businessKnowledgeModel name=\"F{0}\" id=\"_f{0}\"><variable name=\"F{0}\"/><encapsulatedLogic><formalParameter name=\"{1}\"/><formalParameter name=\"q\"/>{2}</encapsulatedLogic></businessKnowledgeModel>",
+          u,
+          param,
+          x_lit(&esc(&absent_use(u, param, "q")))
+        ));
+        b.push_str(&absent_dec(&format!("_u{}", u), &format!("U{}", u), "", &["_n", "_price"], &[], &[&format!("_f{}", u)], &format!("F{}({}, Price)", u, input)));
+      }
+      (b, input.to_string())
+    }
+  }
+}
+
+fn run_absent(cfg: &Cfg, rep: &mut Report) {
+  let mut rng = Rng::new(cfg.seed ^ 0x0ab5_e47);
+  let mut model = Model::start(&cfg.driver);
+  let names = absent_names(&mut model);
+  drop(model);
+  // (type reference, a conforming value, a value of another type)
+  let types: [(&str, &str, &str); 4] = [("number", "3", "\"a\""), ("string", "\"a\"", "3"), ("boolean", "true", "3"), ("Any", "3", "")];
+  for (ni, n) in names.iter().enumerate() {
+    for pos in 0..ABSENT_POSITIONS.len() {
+      // every name meets every position; the type reference and the name of the feeding input rotate / are drawn
+      let (ty, good, wrong) = types[(ni + pos + cfg.seed as usize) % 4];
+      let src = loop {
+        let c = if rng.chance(1, 2) { rng.pick(&names).clone() } else { "src".to_string() };
+        if &c != n && c != "Price" {
+          break c;
+        }
+      };
+      let (body, entry) = absent_model(pos, n, ty, &src);
+      let xml = format!("{}{}</definitions>", HEAD, body);
+      let built = guarded(|| dmntk_model::parse(&xml).map_err(|m| m.to_string()).and_then(|d| ModelEvaluator::new(&d).map_err(|m| m.to_string())));
+      let me = match built {
+        Ok(Ok(me)) => me,
+        other => {
+          let obs = match other {
+            Ok(Err(m)) => format!("the model does not build: {}", m),
+            Err(p) => format!("panic while building: {}", p),
+            _ => unreachable!(),
+          };
+          rep.case(&format!("absent {}", xml), true);
+          rep.disagree(Kind::ImplVsSpec, "absent-input", &format!("absent-input: the model does not build ({})", ABSENT_POSITIONS[pos]), &format!("model {}", xml), &obs, "a model that builds");
+          continue;
+        }
+      };
+      // the entry of the input context: supplied, supplied as null, absent, of the wrong type
+      for state in 0..4 {
+        if state == 3 && wrong.is_empty() {
+          continue;
+        }
+        let (input, eff) = match state {
+          0 => (format!("{{{}: {}, Price: 7}}", entry, good), good),
+          1 => (format!("{{{}: null, Price: 7}}", entry), "null"),
+          2 => ("{Price: 7}".to_string(), "null"),
+          _ => (format!("{{{}: {}, Price: 7}}", entry, wrong), "null"),
+        };
+        let ctx = match eval_text(&input) {
+          Value::Context(c) => c,
+          _ => FeelContext::default(),
+        };
+        let state_name = ["supplied", "null", "absent", "wrong-type"][state];
+        for u in 0..4 {
+          let expected = match u {
+            0 => (eff == "null").to_string(),
+            1 => (if eff == "null" { "7" } else { eff }).to_string(),
+            2 => format!("[{}]", eff),
+            _ => format!("{{r: {}}}", eff),
+          };
+          let invocable = format!("U{}", u);
+          let obs = match guarded(|| me.evaluate_invocable(&invocable, &ctx)) {
+            Ok(v) => format!("{}", strip(&v)),
+            Err(p) => format!("panic: {}", p),
+          };
+          let exp = format!("{}", strip(&eval_text(&expected)));
+          rep.case(&format!("absent {} {} {}", xml, invocable, input), true);
+          rep.hit(&format!("absent-input:{}:{}", ABSENT_POSITIONS[pos], state_name));
+          rep.hit(&format!("absent-input:use:{}", ABSENT_USES[u]));
+          rep.hit(if ni + ABSENT_ORDINARY.len() < names.len() { "absent-input:name:built-in" } else { "absent-input:name:ordinary" });
+          if obs != exp {
+            rep.disagree(
+              Kind::ImplVsSpec,
+              "absent-input",
+              &format!("absent-input: a name bound by a requirement is not the value of its entry / null in the logic ({}, entry {})", ABSENT_POSITIONS[pos], state_name),
+              &format!("invocable {} on {} in model {}", invocable, input, xml),
+              &obs,
+              &exp,
+            );
+          }
+        }
+      }
+    }
+  }
+}
+
 pub fn run(cfg: &Cfg) -> Report {
   if cfg.extra.iter().any(|a| a == "c04-child") {
     child_main();
@@ -2697,6 +2918,7 @@ pub fn run(cfg: &Cfg) -> Report {
   );
   let thorough = cfg.tier == "thorough";
   run_expectations(&mut rep, &expectations());
+  run_absent(cfg, &mut rep);
   run_graphs(cfg, &mut rep, if thorough { 12_000 } else { 1_500 }, true, "");
   rep
 }
